@@ -140,6 +140,8 @@ def param_step(got, den, sp, names, vm, ctx, part, bad):
 def run(report, tier):
     apirun.run_config(report, 'MC_C01', observer=observer, report_kinds=('S',), overrides={'Want': '<-MC_WantH'})
     apirun.run_config(report, 'MC_C01M', observer=observer, report_kinds=('S',), overrides={'Want': '<-MC_WantH'})
+    apirun.run_config(report, 'MC_C19R', observer=observer, report_kinds=('S',), tag='reductions',
+                      overrides={'En': '<-MC_EnNeg', 'Want': '<-MC_WantHV', 'SingValues': '<-MC_NoSing'})
     if tier == 'thorough':      # one call deeper over a reduced alphabet (3 functions, 2 literals)
         apirun.run_config(report, 'MC_C01', observer=observer, report_kinds=('S',), overrides=dict({'MaxCalls': 3, 'Fns': '<-MC_FnsSmall', 'ScalarLits': '<-MC_ScalarLitsSmall'}, Want='<-MC_WantH'), tag='deep')
     return report.finish(
